@@ -524,6 +524,8 @@ class Interp:
                 return list(res) if fn.attr in ('items', 'keys', 'values') else res
             if isinstance(recv, (set, dict)) and fn.attr in ('add', 'update', 'discard'):
                 return getattr(recv, fn.attr)(*args)
+            if isinstance(recv, (set, frozenset)) and fn.attr in ('issubset', 'issuperset', 'isdisjoint', 'union', 'intersection', 'difference'):
+                return getattr(recv, fn.attr)(*args)
             if isinstance(recv, (list, tuple)) and fn.attr in ('index', 'count'):
                 return getattr(recv, fn.attr)(*args)
             if isinstance(recv, list) and fn.attr in ('append', 'pop', 'extend', 'insert'):
@@ -662,6 +664,15 @@ class Interp:
             env[p_] = sub.ev(d)
         for p_, a in zip(params, args):
             env[p_] = a
+        if fnode.args.vararg is not None:
+            env[fnode.args.vararg.arg] = tuple(args[len(params):])
+        if fnode.args.kwarg is not None:
+            env[fnode.args.kwarg.arg] = {k: v for k, v in kwargs.items() if k not in params}
+            kwargs = {k: v for k, v in kwargs.items() if k in params}
+        for ko, kd in zip(fnode.args.kwonlyargs, fnode.args.kw_defaults):
+            if ko.arg not in kwargs and kd is not None:
+                sub0 = Interp(self.a, om, {}, isinstance_fn=self.isinstance_fn, call_models=self.call_models)
+                env[ko.arg] = sub0.ev(kd)
         env.update(kwargs)
         is_gen = any(isinstance(y, (ast.Yield, ast.YieldFrom)) for y in _walk_no_defs(fnode))
         sub = Interp(self.a, om, env, effect_receivers=self.effects if closure else (), isinstance_fn=self.isinstance_fn,
